@@ -418,6 +418,12 @@ def c07(tier, seed):
                             {"checks": rng.choice([5, 100]), "seed": sd, "nofailfile": "true"},
                             runs=[{}, {"expect": "same_run", "warm": rng.sample(["strings", "labels", "check", "failcheck"], 2)}],
                             tag={"template": tn}))
+    # (d) the same fixed seed in a new process: identical run
+    for sd in seeds(rng, max(3, n // 2)):
+        tn = rng.choice(sorted(TEMPLATES))
+        out.append(scenario("c07-proc-%s-%d" % (tn, sd), {"body": TEMPLATES[tn]()},
+                            {"checks": rng.choice([5, 100]), "seed": sd, "nofailfile": "true"},
+                            runs=[{}, {"expect": "same_run", "freshProc": True}], tag={"template": tn, "freshProc": True}))
     return out
 
 
@@ -742,13 +748,15 @@ def c04(tier, seed):
     nseeds = 12 if tier == "quick" else 300
     rel = [{"a": "repro@1", "kind": "replay", "b": "gen@1"}, {"a": "final@1", "kind": "pruned", "b": "repro@1"},
            {"a": "fuzz1", "kind": "replay", "b": "repro@1"}, {"a": "fuzz2", "kind": "pruned", "b": "repro@1"},
-           {"a": "gen@3", "kind": "replay", "b": "gen@1"}]
+           {"a": "gen@3", "kind": "replay", "b": "gen@1"}, {"a": "gen@4", "kind": "replay", "b": "gen@1"},
+           {"a": "final@4", "kind": "pruned", "b": "repro@1"}]
     for bn in sorted(bodies):
         for sd in seeds(rng, nseeds):
             body = bodies[bn] + [op("fatalf", site=1)]          # every test case fails after its draws, so every seed gets recorded
             fl = {"checks": 1, "seed": sd, "nofailfile": "true", "shrinktime": "0s", "steps": rng.choice([3, 30])}
             runs = [{}, {"entry": "fuzz", "fuzzFrom": ["recorded", "pruned"]},
-                    {"warm": rng.sample(["strings", "labels", "check", "failcheck"], 2)}]   # same seed again after unrelated activity
+                    {"warm": rng.sample(["strings", "labels", "check", "failcheck"], 2)},   # same seed again after unrelated activity
+                    {"freshProc": True}]                                                    # ... and in a new process
             out.append(scenario("c04-%s-%d-%d" % (bn, sd, len(out)), {"body": body}, fl, runs=runs, tag={"body": bn, "rel": rel}))
     return out
 
